@@ -66,6 +66,13 @@ CORPUS = [
     (dict(sub_item=False, sub_hist=False, sub_tok=False, max_age=100),
      [["mkcoll", 0], ["put", 0, 0, "a", 0], ["sync", 0, None], ["put", 0, 0, "a", 1], ["sync", 0, ["ws", 0]], ["sync", 0, ["mal", "garbage"]],
       ["sync", 0, ["mal", "   "]], ["sync", 0, 9], ["ptok", 0], ["sync", 0, None]]),
+    # a deleted item's history entry crosses max_sync_token_age while nothing is written: time alone changes nothing
+    (dict(sub_item=False, sub_hist=False, sub_tok=False, max_age=100),
+     [["mkcoll", 0], ["put", 0, 0, "a", 0], ["put", 0, 1, "plan%41", 0], ["del", 0, 0], ["sync", 0, None], ["tick", 99], ["sync", 0, ["last"]],
+      ["tick", 1], ["sync", 0, ["last"]], ["ptok", 0], ["tick", 150], ["ptok", 0], ["sync", 0, ["last"]], ["sync", 0, None]]),
+    (dict(sub_item=False, sub_hist=True, sub_tok=True, max_age=7, prefix="xscript"),
+     [["mkcoll", 0], ["put", 0, 0, "a", 0], ["sync", 0, None], ["del", 0, 0], ["ptok", 0], ["tick", 7], ["sync", 0, 0], ["ptok", 0],
+      ["sync", 0, ["last"]], ["tick", 7], ["sync", 0, ["last"]]]),
     # server mounted below a base prefix (SCRIPT_NAME / X-Script-Name): changed AND removed hrefs carry it
     (dict(sub_item=False, sub_hist=False, sub_tok=False, max_age=100, prefix="script"),
      [["mkcoll", 0], ["mkcoll", 1], ["put", 0, 0, "a", 0], ["put", 0, 1, "plan%41", 0], ["sync", 0, None], ["del", 0, 1], ["put", 0, 0, "a", 1],
@@ -153,10 +160,18 @@ def enum_alphabet(max_age):
 
 def enum_histories(maxlen, cfg, mode):
     """mode 'all': a token after every operation, at the end every token is presented (then once more);
+    mode 'aged': one token after the operations, then only time passes across the maximum age;
     mode 'one': a single token taken at position i, presented at the end (history updated lazily elsewhere)."""
     alpha = enum_alphabet(cfg["max_age"])
     for n in range(1, maxlen + 1):
         for seq in itertools.product(alpha, repeat=n):
+            if mode == "aged":
+                # time alone must change nothing: the token taken after the operations stays up to date while the
+                # clock crosses max_sync_token_age (for history entries and for the token itself)
+                m = cfg["max_age"]
+                yield ([["mkcoll", 0]] + list(seq) + [["sync", 0, None], ["tick", m - 1], ["sync", 0, ["last"]], ["tick", 1],
+                                                      ["sync", 0, ["last"]], ["ptok", 0], ["tick", m], ["ptok", 0], ["sync", 0, ["last"]]])
+                continue
             if mode == "all":
                 ops = [["mkcoll", 0], ["sync", 0, None]]
                 for o in seq:
@@ -291,7 +306,8 @@ def run(ctx):
     # ------------------------------------------------------------ small-scope enumeration
     base = dict(sub_item=False, sub_hist=False, sub_tok=False, max_age=100)
     allsub = dict(sub_item=True, sub_hist=True, sub_tok=True, max_age=100)
-    plans = [(base, ctx.n(2, 4), "all"), (base, ctx.n(2, 3), "one"), (allsub, ctx.n(1, 3), "all"), (allsub, ctx.n(0, 2), "one")]
+    plans = [(base, ctx.n(2, 4), "all"), (base, ctx.n(2, 3), "one"), (allsub, ctx.n(1, 3), "all"), (allsub, ctx.n(0, 2), "one"),
+             (base, ctx.n(2, 3), "aged"), (allsub, ctx.n(1, 3), "aged")]
     jobs = []
     for cfg, maxlen, mode in plans:
         for i, ops in enumerate(enum_histories(maxlen, cfg, mode)):
